@@ -1,6 +1,6 @@
 # C01 - a future is resolved exactly once, by exactly one winner
 import re
-from ..core import norm, relloc, live, calls, evs, Broken, value_origin, Tracer, fmt_trace
+from ..core import norm, relloc, live, calls, evs, Broken, value_origin, Tracer, fmt_trace, pos
 from .. import atomic, witness
 from ..rules import *
 from . import shared
@@ -329,7 +329,7 @@ def no_value(ctx, db):
                 bad = 'the not-a-value arm can return normally'
                 continue
             pend = [it for it in tr if it.k == 'branch' and 'pending' in (it.path or '') + (it.get('opath') or '')]
-            if pend and pend[-1].val is False:
+            if pend and (pend[-1].val if 'pending' in (pend[-1].path or '') else pend[-1].get('oval', pend[-1].val)) is False:
                 if 'await_canceled_exception' in (thr[-1].get('type') or ''):
                     seen_cancel = True
                 else:
@@ -396,7 +396,7 @@ def state_tag_agrees(ctx, db, rid='C01.state-tag-agrees'):
                 lab = sw[0].label or {}
                 arm = (lab.get('text') or '').split('::')[-1] if lab.get('kind') == 'case' else 'default'
                 used = set()
-                for it in tr[tr.index(sw[0]):]:
+                for it in tr[pos(tr, sw[0]):]:
                     p = (it.get('recv') or it.get('path') or '')
                     m = re.search(r'\._(value|ptr_value|exception)\b', p)
                     if m and it.k in ('call', 'read', 'write'):
